@@ -13,7 +13,7 @@ def run(ctx):
                        'BigDecimalRef::round_with_context hand ctx.precision and ctx.rounding to the rounding routine whose result is delivered; '
                        'with_precision_round forwards its mode parameter unchanged to with_scale_round. R-PANIC (own body + closures, debug-profile '
                        'facts): the precision-to-scale conversion uses checked arithmetic only -- the single may-panic site is the documented '
-                       'expect("precision overflow"); no integer `as` cast on that slice. R-SIGN on the same functions. NOT decided: with_prec\'s '
+                       'expect("precision overflow"); no integer `as` cast on that slice. R-SIGN on the same functions. FIXED-TIE: with_prec\'s tie rule cannot come from the configurable default mode. NOT decided: with_prec\'s '
                        'rounding (including its behaviour on negatives) and digit counting.')
     F = ctx.facts('default', 'rel')
     if not hasattr(F, '_prov'):
@@ -61,6 +61,45 @@ def run(ctx):
                 rep.violation('NO-CAST', '%s|cast-to-%s' % (fn.key, rv['to']), 'integer `as` cast on the precision-to-scale slice (must be checked conversions): to %s' % rv['to'], fn.where(st['line']))
     if ncast == 0:
         rep.ok('NO-CAST', 'with_precision_round:no-int-cast', 'no integer `as` cast in with_precision_round or its closures (%d bodies)' % len(bodies))
+    # with_prec's tie rule is fixed by its specification (ties away from zero): it must not come from the
+    # configurable default mode, and a mode constant it hands to a rounding routine must be HalfUp
+    wp = F.fns.get('BigDecimal::with_prec')
+    if wp is None:
+        rep.violation('FIXED-TIE', 'BigDecimal::with_prec:missing', 'anchor function not found (fail closed)')
+    else:
+        rep.add_functions([wp.name])
+        reach = F.reach([wp.name])
+        conf = sorted(x for x in reach if re.search(r'RoundingMode as std::default::Default>::default$|Context as std::default::Default>::default$|default_with_sign$', x))
+        named = []
+        for nme in sorted(reach):
+            g = F.fns[nme]
+            if not (g.name == wp.name or g.name.startswith(wp.name + '::{closure')):
+                continue
+            for bid, st in g.stmts():
+                rv = st['rv']
+                for o in [rv.get('op'), rv.get('a'), rv.get('b')] + list(rv.get('ops') or []):
+                    if o and o.get('k') == 'const' and str(o.get('named', '')).endswith('DEFAULT_ROUNDING_MODE'):
+                        named.append(g.where(st['line']))
+        bad_mode = []
+        for bid, t in wp.calls():
+            for i, a in enumerate(t['args']):
+                ty = a.get('ty') or (wp.locals[a['pl']['l']] if a['k'] in ('copy', 'move') else '')
+                if 'RoundingMode' not in ty:
+                    continue
+                l = a['pl']['l'] if a['k'] in ('copy', 'move') else None
+                variant = None
+                for b2, st in wp.stmts():
+                    if l is not None and st['lhs']['l'] == l and not st['lhs']['p'] and st['rv']['r'] == 'agg' and st['rv']['kind'].get('a') == 'adt':
+                        variant = st['rv']['kind'].get('variant')
+                if variant is not None and variant != 'HalfUp':
+                    bad_mode.append((variant, wp.where(t['loc']['line'])))
+        key = wp.key + ':ties-away-from-zero-not-configurable'
+        if conf or named:
+            rep.violation('FIXED-TIE', key, 'with_prec must round ties away from zero whatever the build configuration, but it reaches the configurable default rounding mode (%s)' % (conf[0] if conf else 'DEFAULT_ROUNDING_MODE'), wp.where())
+        elif bad_mode:
+            rep.violation('FIXED-TIE', key, 'with_prec hands RoundingMode::%s to a rounding routine; its specification is ties away from zero (HalfUp)' % bad_mode[0][0], bad_mode[0][1])
+        else:
+            rep.ok('FIXED-TIE', key, '%d bodies reachable from with_prec: none is RoundingMode::default / Context::default / default_with_sign, no use of DEFAULT_ROUNDING_MODE, no non-HalfUp mode constant passed on' % len(reach), wp.where())
     if ctx.tier == 'thorough':
         from rules import witness
         nw = witness.run(rep, r'^W[12]')
